@@ -86,13 +86,7 @@ let () =
       let h = mk_h (parse_hashes hs) in
       let n = int_of_string n in
       let buf = Buffer.create 256 in
-      let fetch_obs (content : n list option) dg sz =
-        match content with
-        | None -> "NOT_FOUND"
-        | Some c ->
-          let evs = [Data c] in
-          let ((e, b), _) = read_all h false fixed (fuel_of evs) (base_of evs "-") dg sz in
-          (match e with None -> "OK/" ^ digest_str b | Some e -> err_name e) in
+      let show_fetch (e, b) = match e with None -> "OK/" ^ digest_str b | Some e -> err_name e in
       let seen = ref [] in
       (* final sweep: every descriptor of the history is queried again on the final state *)
       let sweep (observe : n list -> desc -> string) =
@@ -121,11 +115,11 @@ let () =
                 (z_of_int (int_of_string (String.sub kind 3 (String.length kind - 3)))) !st d evs in
           st := st';
           let c = mem_get !st d in
-          Printf.sprintf "%s X%d F%s" (res_name e) (if c = None then 0 else 1) (fetch_obs c d.d_dg d.d_sz));
+          Printf.sprintf "%s X%d F%s" (res_name e) (if c = None then 0 else 1) (show_fetch (mem_fetch_all h !st d)));
         Buffer.add_string buf ("B=" ^ listing (List.map (fun (d, c) ->
           Printf.sprintf "%s/%s/%d/%s" (hex_of_str d.d_mt) (hex_of_str d.d_dg) (int_of_z d.d_sz) (digest_str c)) !st));
         Buffer.add_string buf (sweep (fun _ d -> let c = mem_get !st d in
-          Printf.sprintf "X%d/F%s" (if c = None then 0 else 1) (fetch_obs c d.d_dg d.d_sz)))
+          Printf.sprintf "X%d/F%s" (if c = None then 0 else 1) (show_fetch (mem_fetch_all h !st d))))
       end else if kind = "oci" || (String.length kind > 4 && String.sub kind 0 4 = "olim") then begin
         let st = ref [] in
         pushes n rest (fun _ d comb evs ->
@@ -136,14 +130,14 @@ let () =
           st := st';
           let (xe, x) = oci_exists !st d in
           let xs = match xe with Some e -> err_name e | None -> if x then "1" else "0" in
-          let f = if valid_digest d.d_dg then fetch_obs (oci_get !st d.d_dg) d.d_dg d.d_sz else "BAD_DIGEST" in
+          let f = show_fetch (oci_fetch_all h !st d) in
           Printf.sprintf "%s X%s F%s" (res_name e) xs f);
         Buffer.add_string buf ("B=" ^ listing (List.map (fun (dg, c) ->
           Printf.sprintf "%s/%s" (hex_of_str dg) (digest_str c)) !st) ^ " I=0");
         Buffer.add_string buf (sweep (fun _ d ->
           let (xe, x) = oci_exists !st d in
           let xs = match xe with Some e -> err_name e | None -> if x then "1" else "0" in
-          let f = if valid_digest d.d_dg then fetch_obs (oci_get !st d.d_dg) d.d_dg d.d_sz else "BAD_DIGEST" in
+          let f = show_fetch (oci_fetch_all h !st d) in
           Printf.sprintf "X%s/F%s" xs f))
       end else if kind = "file" then begin
         let st = ref { f_files = []; f_names = []; f_d2p = []; f_fb = [] } in
@@ -152,12 +146,12 @@ let () =
           let (e, st') = file_push h comb fixed (fuel_of evs) !st name path d evs in
           st := st';
           let x = file_exists !st name d in
-          let f = fetch_obs (file_fetch !st name d) d.d_dg d.d_sz in
+          let f = show_fetch (file_fetch_all h !st name d) in
           Printf.sprintf "%s X%d F%s" (res_name e) (if x then 1 else 0) f);
         Buffer.add_string buf ("B=" ^ listing (List.map (fun (nm, c) ->
           Printf.sprintf "%s/%s" (hex_of_str nm) (digest_str c)) !st.f_files));
         Buffer.add_string buf (sweep (fun name d ->
-          Printf.sprintf "X%d/F%s" (if file_exists !st name d then 1 else 0) (fetch_obs (file_fetch !st name d) d.d_dg d.d_sz)))
+          Printf.sprintf "X%d/F%s" (if file_exists !st name d then 1 else 0) (show_fetch (file_fetch_all h !st name d))))
       end else failwith ("bad store kind " ^ kind));
       Printf.printf "%s %s\n" id (Buffer.contents buf)
     | id :: "PF" :: hs :: kind :: n :: rest ->
